@@ -94,7 +94,10 @@ ITP_MULTITERM = True    # F20 fixed: same-atom terms of an .itp block get versio
 def block(draw, name, nrexcl, syntax, names=None, max_atoms=5, resname=None, nonbond_sections=True):
     if names is None:
         natoms = draw(st.integers(1, max_atoms))
-        names = draw(st.permutations(ATOMNAMES))[:natoms]
+        names = list(draw(st.permutations(ATOMNAMES))[:natoms])
+        if draw(st.integers(0, 7)) == 0:
+            # a bead name with a charge sign in it (N+, NC3+ ...): the sign belongs to the name, it is no prefix
+            names[draw(st.integers(0, natoms - 1))] = draw(st.sampled_from(["N+", "NC3+", "Q-"]))
     else:
         natoms = len(names)
     atoms = []
@@ -472,6 +475,10 @@ def case(draw, with_links=True, max_res=8, mixed_nrexcl=False, routes=("json", "
             links.append(draw(link(blocks, label_pool, allow_replace=allow_replace, prefer=prefer,
                                    bonded_only=bonded_only, nonbond_sections=nonbond,
                                    atype_replace=atype_replace, removal_bias=removal_bias)))
+        if links and draw(st.integers(0, 4)) == 0:
+            # one link is meant for molecules with a certain attribute only (as the martini protein links that ask
+            # for scfix / extdih): gen_params molecules carry none, so it applies nowhere
+            draw(st.sampled_from(links))["molmeta"] = draw(st.sampled_from(["scfix true", "extdih true"]))
         if atype_replace:
             # selection by type is what makes a type replacement observable for later links
             retyped = {model_split_key(at["key"])[1] for lnk in links for at in lnk["atoms"]
@@ -605,6 +612,8 @@ def render_ff_link(lnk):
     (vermouth rejects a mention whose attributes differ from the first definition);
     the [ atoms ] section is used for atoms that carry a `replace`."""
     lines = ["[ link ]", f"resname {json.dumps(lnk['resname'])}"]
+    if lnk.get("molmeta"):
+        lines += ["[ molmeta ]", lnk["molmeta"]]
     attrs_of = {a["key"]: a["attrs"] for a in lnk["atoms"]}
 
     def inline(key):
